@@ -69,27 +69,38 @@ func runC01(rc *RunCtx) {
 			type target struct {
 				client, at int
 				mkdir      bool
+				dirStat    bool // the k-th stat of the lock directory itself (existence tests around a release)
 			}
 			var targets []target
 			for i := 0; i < cfg.IOErrors; i++ {
-				t := target{client: 1 + ch.Intn("ioclient", cfg.Clients), at: ch.Intn("ioat", 400), mkdir: ch.Intn("iomkdir", 2) == 1}
-				if t.mkdir {
-					t.at = ch.Intn("iomkdirat", 6)
+				t := target{client: 1 + ch.Intn("ioclient", cfg.Clients), at: ch.Intn("ioat", 400)}
+				switch ch.Intn("iomkdir", 3) {
+				case 1:
+					t.mkdir, t.at = true, ch.Intn("iomkdirat", 6)
+				case 2:
+					t.dirStat, t.at = true, ch.Intn("iodirstatat", 40)
 				}
 				targets = append(targets, t)
 			}
-			seen, seenMk := map[int]int{}, map[int]int{}
+			seen, seenMk, seenDirStat := map[int]int{}, map[int]int{}, map[int]int{}
 			sim.Decide = func(op *Op) *Fault {
 				idx := seen[op.Client]
 				seen[op.Client]++
-				mk := -1
+				mk, ds := -1, -1
 				if op.Name == "mkdir" {
 					mk = seenMk[op.Client]
 					seenMk[op.Client]++
 				}
+				if op.Name == "stat" && normPath(op.Path) == w.lockDir {
+					ds = seenDirStat[op.Client]
+					seenDirStat[op.Client]++
+				}
 				for _, t := range targets {
-					if t.client == op.Client && ((!t.mkdir && t.at == idx) || (t.mkdir && t.at == mk)) {
+					if t.client == op.Client && ((!t.mkdir && !t.dirStat && t.at == idx) || (t.mkdir && t.at == mk) || (t.dirStat && t.at == ds)) {
 						rc.Res.Fault("transient-io-error")
+						if t.dirStat {
+							rc.Res.Fault("transient-io-error-on-lock-directory-stat")
+						}
 						if t.mkdir {
 							rc.Res.Fault("transient-io-error-on-lock-mkdir")
 						}
